@@ -48,9 +48,22 @@ def keyOf (m : Mode) (attr : Option (List Nat)) (x : V) : V :=
   | some name => attrOr m name .undef x
   | Option.none => x
 
-/-- `sort(value, case_sensitive, reverse, attribute)`: `sort_by(|a, b| cmp_helper(key a, key b, ..))` -/
+/-- `safe_sort(&mut items, |a, b| cmp_helper(&key(a), &key(b), case_sensitive, reverse))` -/
+def sortKV (cs rev : Bool) (kf : V → V) (xs : List V) : List V :=
+  xs.mergeSort (fun a b => cmpHelper cs rev (kf a) (kf b) != .gt)
+
+/-- `sort(value, case_sensitive, reverse, attribute)` with no or one attribute name -/
 def sortV (m : Mode) (cs rev : Bool) (attr : Option (List Nat)) (xs : List V) : List V :=
-  xs.mergeSort (fun a b => cmpHelper cs rev (keyOf m attr a) (keyOf m attr b) != .gt)
+  sortKV cs rev (keyOf m attr) xs
+
+/-- the key of `sort(attribute="a, b, …")`: `Value::from_iter` of the attributes (a list, so no case
+    folding applies inside it) -/
+def keyMulti (m : Mode) (names : List (List Nat)) (x : V) : V :=
+  .seq (names.map (fun n => attrOr m n .undef x))
+
+/-- `sort` with several attribute names -/
+def sortMultiV (m : Mode) (cs rev : Bool) (names : List (List Nat)) (xs : List V) : List V :=
+  sortKV cs rev (keyMulti m names) xs
 
 /-- `dictsort(map, case_sensitive, reverse, by)` on the `(key, value)` pairs in iteration order -/
 def dictsortV (cs rev byValue : Bool) (ps : List (V × V)) : List (V × V) :=
